@@ -188,6 +188,23 @@ def check_interop(h):
     c_disc = [e for e in capp.events if e['ev'] == 'disconnect']
     s_disc = [e for e in sapp.events if e['ev'] == 'disconnect']
     if conn_op['exc']:
+        big = [r for r in h.world.requests
+               if r.kind == 'http' and r.method == 'GET' and
+               'sid=' not in (r.query or '') and r.status == 200 and
+               r.resp_body and r.resp_body.count(b'\x1e') + 1 > 16]
+        if big and conn_op.get('exc_type') == 'ConnectionError':
+            # K2 at the handshake: the application sent so much to the new
+            # session before its open request was answered that the answer
+            # holds more packets than this package's client decodes
+            out.append(V('any-burst-size',
+                         '%s|server-burst-over-16-aborts-client' % pair,
+                         'the open request was answered with %d packets '
+                         '(OPEN plus everything already queued); the client '
+                         'refused the payload (max_decode_packets) and '
+                         'connect() raised %s' % (
+                             big[0].resp_body.count(b'\x1e') + 1,
+                             conn_op['exc'])))
+            return out
         if not faulty and conn_op.get('exc_type') != 'ValueError':
             out.append(V('connects', '%s|connect-failed|%s' % (
                 pair, conn_op['exc_type']),
